@@ -19,7 +19,7 @@ RULE = ("one run = one generated document, 1-3 (line, clone) pairs of any record
         "interleaved edits per pair; distinct = distinct (record type, edit kind, side) tuples x line digest")
 PROBES = ["connected_original", "standalone_original", "edit_clone", "edit_original", "inplace_list",
           "inplace_cigar", "inplace_oriented", "inplace_json", "inplace_numarray", "header_clone",
-          "edit_applied", "inplace_lastpos"]
+          "edit_applied", "inplace_lastpos", "header_clone_merged"]
 EDITS = ["set_tag", "del_tag", "set_pos", "list_append", "list_pop", "cigar_op", "oriented", "json_inplace",
          "numarray_append", "fieldarray_append", "set_datatype", "trace_inplace", "list_item_inplace", "lastpos_inplace"]
 
@@ -37,6 +37,10 @@ def gen(streams, tier, i):
     for _ in range(er.randint(1, 3)):
         ops.append({"op": "clone", "i": er.randrange(1000), "connected": er.random() < 0.7,
                     "header": er.random() < 0.12})
+        if ops[-1]["header"] and er.random() < 0.6:
+            # the clone of the header, given tags of its own, is handed back to add_line (merged into the header):
+            # it stays the caller's object, later in-place edits of it do not reach the Gfa
+            ops.append({"op": "merge_clone"})
         for _e in range(er.randint(1, 10)):
             ops.append({"op": "edit", "side": er.choice(["clone", "orig"]), "e": er.choice(EDITS),
                         "j": er.randrange(1000), "v": er.choice([1, 7, "zz", "+", "-", "A", 2.5])})
@@ -245,6 +249,14 @@ def run(scn, st):
             if sstr(orig) != pre_s or digest(ob.observe(g)) != pre_g:
                 raise core.Violation("clone-modified-original", "cloning %r changed the original or its Gfa" % pre_s,
                                      rt=orig.record_type)
+            continue
+        if op["op"] == "merge_clone" and orig is not None and clone is not None and orig is g.header:
+            st.count("probe.header_clone_merged")
+            for t in list(clone.tagnames):
+                core.call(clone.delete, t)
+            core.call(clone.set, "yq", [[1], {"a": [2]}])
+            core.call(clone.set, "yr", [1, 2, 3])
+            core.call(g.add_line, clone)
             continue
         if op["op"] == "edit" and orig is not None:
             side = op["side"]
